@@ -140,20 +140,36 @@ pub fn cancel_kernel(p_mode: u8) {
     vcheck!(rng.calls == nlive && !rng.overdrawn, "AGENT.cancel_draws_one_word_per_live_order");
     let d0 = f32_of_word(w0);
     let d1 = f32_of_word(if a0 { w1 } else { w0 });
-    let c0 = a0 && !(d0 > p_cancel);
-    let c1 = a1 && !(d1 > p_cancel);
-    let ncancel = c0 as usize + c1 as usize;
-    vcheck!(env.verif_queue_len() == ncancel, "AGENT.cancel_queues_one_cancellation_per_selected_live_order");
+    // which tracked orders were sent a cancellation
+    let q = env.verif_queue_len();
+    let mut x0 = false;
+    let mut x1 = false;
+    let mut only_cancels = true;
+    let mut i = 0;
+    while i < 2 {
+        if i < q {
+            let (kind, id, _, _) = env.verif_queued(i);
+            only_cancels &= kind == 1 && id < 2;
+            x0 |= id == 0;
+            x1 |= id == 1;
+        }
+        i += 1;
+    }
+    let ncancel = x0 as usize + x1 as usize;
+    vcheck!(q == ncancel && only_cancels, "AGENT.cancel_queues_one_cancellation_per_selected_order_and_nothing_else");
+    vcheck!((!x0 || a0) && (!x1 || a1), "AGENT.cancels_only_own_orders_that_were_active");
+    // a live order is cancelled if its draw is below p and only if it is not above p
+    vcheck!((!x0 || d0 <= p_cancel) && (!x1 || d1 <= p_cancel), "AGENT.cancelled_only_if_draw_not_above_probability");
+    vcheck!((!(a0 && d0 < p_cancel) || x0) && (!(a1 && d1 < p_cancel) || x1), "AGENT.cancelled_whenever_draw_below_probability");
     vcheck!(kept.len() == nlive - ncancel, "AGENT.cancel_returns_exactly_the_surviving_live_orders");
     let mut ok = true;
     let mut i = 0;
     while i < kept.len() {
         let id = kept[i];
-        ok &= (id == 0 && a0 && !c0) || (id == 1 && a1 && !c1);
+        ok &= (id == 0 && a0 && !x0) || (id == 1 && a1 && !x1);
         i += 1;
     }
     vcheck!(ok, "AGENT.cancel_keeps_only_tracked_active_orders");
-    vcheck!(env.verif_queued_cancels_only(&tracked, &[a0, a1]), "AGENT.cancels_only_own_orders_that_were_active");
     match p_mode {
         0 => vcheck!(ncancel == 0, "AGENT.probability_zero_never_cancels"),
         1 => vcheck!(ncancel == nlive, "AGENT.probability_one_always_cancels"),
